@@ -19,7 +19,7 @@ EXPLANATION = (
     "passed through unchanged. Does NOT decide RFC 3339 / nanosecond fidelity of timestamps (jiff), string escaping and number "
     "handling (serde_json), or null-vs-absent — most of the statement; the claim is limited to table agreement and wrapper transparency.")
 ASSUMPTIONS = ["rustc type checking / MIR construction are correct", "serde_json and jiff implement JSON / RFC 3339 faithfully", "serde's derive-free visitor protocol (next_key/next_value) behaves as documented"]
-FLOORS = {"R14.1": 1, "R14.2": 2, "R14.3": 1, "R14.4": 6, "R14.5": 1, "R14.6": 1}
+FLOORS = {"R14.1": 1, "R14.2": 2, "R14.3": 1, "R14.4": 6, "R14.5": 1, "R14.6": 1, "R14.8": 1}
 
 def strip_refs(t):
     while isinstance(t, tuple) and t and t[0] in ("ref", "deref"):
@@ -217,6 +217,33 @@ def run(ctx):
     else:
         p6.append("anchor missing")
     ctx.add("R14.6", "C14/struct-length-hint", not p6, "; ".join(p6), site_of(fw) if fw else None)
+    # R14.8: the field list handed to deserialize_struct (formats and serde's own flatten machinery route members by it) is
+    # exactly the list of member names
+    p8 = []
+    fd = cr.fns.get("claims_impls::<impl serde_core::de::Deserialize<'de> for RegisteredClaims>::deserialize")
+    if fd is None:
+        p8.append("anchor missing")
+    else:
+        import json as _json
+        lists = []
+        def consts(o):
+            if isinstance(o, dict):
+                if "const" in o and isinstance(o["const"].get("val"), dict) and "strs" in o["const"]["val"]:
+                    lists.append(o["const"]["val"]["strs"])
+                for v in o.values():
+                    consts(v)
+            elif isinstance(o, list):
+                for v in o:
+                    consts(v)
+        consts(fd["body"]["blocks"])
+        for pb in fd.get("promoted", []):
+            consts(pb.get("blocks", []))
+        if not lists:
+            p8.append("the field list passed to deserialize_struct is not an evaluable constant list of names")
+        for l in lists:
+            if sorted(l) != sorted(fields):
+                p8.append(f"field list {l} differs from the member names {fields}")
+    ctx.add("R14.8", "C14/deserialize-field-list", not p8, "; ".join(p8), site_of(fd) if fd else None)
     n2v, rd, vm, pr = reader_tables(ctx)
     ctx.add("R14.2", "C14/reader-name-table", not [p for p in pr if "visit_bytes" in p or "name" in p or "visit_str" in p or "anchor" in p],
             "; ".join(p for p in pr if "visit_bytes" in p or "name" in p or "visit_str" in p or "anchor" in p), None, {"table": n2v})
